@@ -4,7 +4,7 @@ import AnySyncModel.Deletion.Model
 
   init <n> <p0,p1,…>            parent index + 1 per object, 0 = none          → `ok`
   rec <rid> <ids|-> <n|s<ids>>  declares settings record number rid              → `ok`
-  put k | fetch k | fstart k | ffin | edit k | head k | run
+  put k | fetch k | fstart k | ffin | edit k | head k | run | runf | legacy k
   restart <view> | deliver <view> | del k <s|n> [<rid> <view>]
   view = `-` | `<R|A>:<start>:<root>:<seq|->`
 
@@ -69,6 +69,8 @@ def step (s : St) (line : String) : St × String :=
   | ["edit", k] => match k.toNat? with | some k => answer (AnySync.Deletion.step s (.edit k)) | none => (s, "bad-op")
   | ["head", k] => match k.toNat? with | some k => answer (AnySync.Deletion.step s (.head k)) | none => (s, "bad-op")
   | ["run"] => answer (AnySync.Deletion.step s .run)
+  | ["runf"] => answer (AnySync.Deletion.step s .runFault)
+  | ["legacy", k] => match k.toNat? with | some k => answer (AnySync.Deletion.step s (.legacy k)) | none => (s, "bad-op")
   | ["restart", v] => match parseView v with | some v => answer (AnySync.Deletion.step s (.restart v)) | none => (s, "bad-op")
   | ["crash", k, v] => match k.toNat?, parseView v with
     | some k, some v => answer (AnySync.Deletion.step s (.crash k v)) | _, _ => (s, "bad-op")
